@@ -28,13 +28,17 @@
  *   fname  ldb_parse_filename (input NUL-terminated)
  *
  * Domains: D1 all byte strings of length <= 2 (quick) / <= 3 (thorough) per entry point;
- * D1b all strings of length 3 (quick) / 3..4 (thorough) over a 24-value alphabet; D2 all strings of length <= 6 over
+ * D1b all strings of length 3 (quick) / 3..5 (thorough) over a 24-value alphabet; D2 all strings of length <= 6 over
  * {00,01,07,7F,80,FF}; D3 per seed encoding: every single-offset substitution by
  * {00,01,02,07,08,7F,80,81,FE,FF}, every truncation, double-offset substitution by {00,FF} at
- * offsets <= 16 apart (quick) / by {00,7F,80,FF} at every offset pair (thorough); D4 (thorough) splices prefix(A)+suffix(B) of consecutive seeds.
+ * offsets <= 16 apart (quick) / by {00,7F,80,FF} at every offset pair (thorough); D4 (thorough) splices prefix(A)+suffix(B) of every ordered seed pair of an entry point.
  */
 #include <inttypes.h>
+#include <signal.h>
 #include <sys/stat.h>
+#include <sys/syscall.h>
+#include <sys/time.h>
+#include <unistd.h>
 #include "drv.h"
 
 #include "util/bloom.h"
@@ -80,6 +84,7 @@ static const char *EPN[NEP] = {"blk", "blki", "foot", "footp", "hand", "filt", "
                                "log", "lognc", "logp", "pkey", "fname"};
 
 static uint64_t n_cases[NEP], n_accept[NEP], n_items[NEP];
+static uint64_t n_seed_rejected;
 static uint64_t n_eval, n_d1, n_d1b, n_d2, n_single, n_trunc, n_double, n_splice, n_enomem;
 static int exhaustive = 1;
 static const char *ep_viol; /* set by an entry point: "nonterminating" ... */
@@ -89,6 +94,44 @@ static volatile uint32_t sink;
 static ldb_comparator_t ikc;
 
 /* ------------------------------------------------------------------ */
+
+/* Watchdog for a loop that never returns INSIDE lcdb (the step caps only guard this
+ * driver's own loops): a 1 s interval timer; when the case counter has not moved for
+ * WATCHDOG_S consecutive ticks the process reports and dies with exit code 94, which the
+ * orchestrator attributes to the case announced last. */
+#define WATCHDOG_S 30
+static volatile uint64_t wd_progress;
+static uint64_t wd_seen;
+static int wd_stalled;
+
+static void
+wd_tick(int sig) {
+  static const char msg[] = "runtime error: nonterminating: no case completed for 30 s (loop inside lcdb)\n";
+  (void)sig;
+  if (wd_progress != wd_seen) {
+    wd_seen = wd_progress;
+    wd_stalled = 0;
+    return;
+  }
+  if (++wd_stalled >= WATCHDOG_S) {
+    syscall(SYS_write, 2, msg, sizeof(msg) - 1);
+    syscall(SYS_exit_group, 94);
+  }
+}
+
+static void
+wd_start(void) {
+  struct sigaction sa;
+  struct itimerval it;
+  memset(&sa, 0, sizeof(sa));
+  sa.sa_handler = wd_tick;
+  sa.sa_flags = SA_RESTART;
+  sigaction(SIGALRM, &sa, NULL);
+  it.it_interval.tv_sec = 1;
+  it.it_interval.tv_usec = 0;
+  it.it_value = it.it_interval;
+  setitimer(ITIMER_REAL, &it, NULL);
+}
 
 static uint32_t
 touch(const ldb_slice_t *s) {
@@ -679,6 +722,7 @@ run_case(int e, const uint8_t *s, size_t n) {
   ep_viol = NULL;
   out = exec_ep(e, s, n, &items);
   n_eval++;
+  wd_progress++;
   n_cases[e]++;
   n_items[e] += items;
   if (accepted(e, out))
@@ -1163,16 +1207,16 @@ dom_alphabet(int e) {
   }
 }
 
-/* D1b: all strings of length 3 and 4 over a 24-value alphabet (small counts/tags + boundaries) */
+/* D1b: all strings of length 3 (thorough: 3..5) over a 24-value alphabet (small counts/tags + boundaries) */
 static const uint8_t AL24[24] = {0x00, 0x01, 0x02, 0x03, 0x04, 0x05, 0x06, 0x07, 0x08, 0x09, 0x0a, 0x0f,
                                  0x10, 0x3f, 0x40, 0x7e, 0x7f, 0x80, 0x81, 0xbf, 0xc0, 0xfd, 0xfe, 0xff};
 
 static void
 dom_alphabet24(int e) {
-  uint8_t s[4];
+  uint8_t s[5];
   int len, i;
   uint32_t x, lim;
-  for (len = 3; len <= (drv.thorough ? 4 : 3); len++) {
+  for (len = 3; len <= (drv.thorough ? 5 : 3); len++) {
     lim = 1;
     for (i = 0; i < len; i++)
       lim *= 24;
@@ -1196,14 +1240,19 @@ dom_seed(const seed_t *sd, int idx) {
   size_t o1, o2, len;
   int i, j, out;
   uint64_t items;
-  /* anti-vacuity: the unmutated seed must be accepted by its decoder */
+  /* anti-vacuity: the unmutated seed should be accepted by its decoder (a decoder that
+   * rejects valid encodings is the business of C15-C17, here it is only recorded) */
+  format_case(sd->ep, sd->p, sd->n);
+  drv_case("%s", textbuf);
   ep_viol = NULL;
   out = exec_ep(sd->ep, sd->p, sd->n, &items);
-  if (!accepted(sd->ep, out) && !(sd->n && strstr(sd->what, "empty")))
-    vh_die("c18_decoders: seed %d (%s, ep %s) is not accepted by its own decoder (outcome %d)", idx, sd->what,
-           EPN[sd->ep], out);
-  if (ep_viol)
-    vh_die("c18_decoders: seed %d (%s) trips %s", idx, sd->what, ep_viol);
+  if (!accepted(sd->ep, out) && !(sd->n && strstr(sd->what, "empty"))) {
+    n_seed_rejected++;
+    if (drv.shard == 0)
+      drv_note("seed %d (%s, ep %s) is NOT accepted by its own decoder (outcome %d)", idx, sd->what, EPN[sd->ep], out);
+  }
+  if (ep_viol && drv.shard == 0)
+    report_viol(sd->ep, textbuf);
   want_sample = drv_mine(gidx);
   run_case(sd->ep, sd->p, sd->n);
   for (o1 = 0; o1 < sd->n; o1++) {
@@ -1304,6 +1353,7 @@ main(int argc, char **argv) {
   memset(t_ep, 0, sizeof(t_ep));
   ldb_ikc_init(&ikc, ldb_bytewise_comparator);
   ldb_crc32c_init();
+  wd_start();
 
   if (drv.replay) {
     if (!replay(drv.replay))
@@ -1342,18 +1392,15 @@ main(int argc, char **argv) {
   }
   t3 = drv_elapsed();
   if (drv.thorough) {
-    for (i = 0; i < nseeds && !stop_now(); i++) {
-      int j = i + 1;
-      if (j >= nseeds || seeds[j].ep != seeds[i].ep) { /* wrap to the first seed of this entry point */
-        for (j = i; j > 0 && seeds[j - 1].ep == seeds[i].ep; j--)
-          ;
+    int j;
+    for (i = 0; i < nseeds && !stop_now(); i++)
+      for (j = 0; j < nseeds && !stop_now(); j++) {
+        if (i == j || seeds[i].ep != seeds[j].ep || (only && strcmp(only, EPN[seeds[i].ep]) != 0))
+          continue;
+        if (seeds[i].ep == EP_FNAME)
+          continue; /* ten one-line names: substitutions and truncations cover them */
+        dom_splice(&seeds[i], &seeds[j]);
       }
-      if (j == i || (only && strcmp(only, EPN[seeds[i].ep]) != 0))
-        continue;
-      if (seeds[i].ep == EP_FNAME)
-        continue; /* ten one-line names: substitutions and truncations cover them */
-      dom_splice(&seeds[i], &seeds[j]);
-    }
   }
   t4 = drv_elapsed();
 
@@ -1362,16 +1409,16 @@ main(int argc, char **argv) {
            "values, every truncation, double substitution %s%s; snappy output block = min(declared, 64*n+64) bytes; "
            "declared size above %zu MiB (ldb_read_block's malloc would be refused -> ENOMEM) in %" PRIu64
            " cases on this shard",
-           drv.thorough ? "thorough" : "quick", NEP, maxlen, drv.thorough ? 4 : 3, nseeds,
+           drv.thorough ? "thorough" : "quick", NEP, maxlen, drv.thorough ? 5 : 3, nseeds,
            drv.thorough ? "{00,7F,80,FF}^2 at every offset pair" : "{00,FF}^2 at offset pairs <= 16 apart",
-           drv.thorough ? "; D4 splices of consecutive seeds" : "", ALLOC_CAP >> 20, n_enomem);
+           drv.thorough ? "; D4 splices prefix(A)+suffix(B) for every ordered pair of seeds of one entry point" : "", ALLOC_CAP >> 20, n_enomem);
 
   vb_init(&res);
   vb_printf(&res, "\"evaluations\":%" PRIu64 ",\"exhaustive\":%s,\"d1_all_strings\":%" PRIu64 ",\"d1b_alphabet24\":%" PRIu64 ",\"d2_alphabet\":%" PRIu64
             ",\"d3_single\":%" PRIu64 ",\"d3_trunc\":%" PRIu64 ",\"d3_double\":%" PRIu64 ",\"d4_splice\":%" PRIu64
-            ",\"seeds\":%d,\"enomem_simulated\":%" PRIu64,
+            ",\"seeds\":%d,\"seeds_not_accepted\":%" PRIu64 ",\"enomem_simulated\":%" PRIu64,
             n_eval, exhaustive ? "true" : "false", n_d1, n_d1b, n_d2, n_single, n_trunc, n_double, n_splice,
-            drv.shard == 0 ? nseeds : 0, n_enomem);
+            drv.shard == 0 ? nseeds : 0, drv.shard == 0 ? n_seed_rejected : (uint64_t)0, n_enomem);
   vb_printf(&res, ",\"max_t_seeds_s\":%.2f,\"max_t_alphabet_s\":%.2f,\"max_t_allstrings_s\":%.2f,\"max_t_splice_s\":%.2f",
             t1 - t0, t2 - t1, t3 - t2, t4 - t3);
   for (e = 0; e < NEP; e++)
